@@ -349,6 +349,8 @@ def coq_case(case, results):
 def describe(case, q, status, obs, extra):
     return {"sampler": case["kind"], "n_parameters": case["npar"], "rows": case["rows"],
             "probs": case["probs"], "query": q, "perm": extra.get("perm"),
+            "history": case.get("history", "history injected, then this query"),
+            "rows_before_replace_last": case.get("rows_before"), "probs_before_replace_last": case.get("probs_before"),
             "impl_status": status, "impl_output": obs if status != "ok" else [list(o) for o in obs]}
 
 
@@ -365,6 +367,7 @@ def run(rep: C.Report, tier: str) -> int:
     cases = gen_cases(r, tier)
     all_results = []
     n_queries = 0
+    extra_cases, extra_results = [], []
     with Patched(C.rng_for(PROP, "perm")) as patch:
         for case in cases:
             ch = build(case["kind"], case["npar"], case["rows"], case["probs"])
@@ -387,6 +390,31 @@ def run(rep: C.Report, tier: str) -> int:
                 q0, (s0, o0, e0) = case["queries"][-2], res[-2]
                 rep.sample({"sampler": case["kind"], "rows": case["rows"][:6], "probs": case["probs"][:6],
                             "query": q0, "impl_output": o0})
+            # history dimension: the SAME object, already read out, then changed through the public
+            # replace_last hook (what a tempering exchange does) and read out again -- a read-out must
+            # reflect the chain as it is now, not as it was when first read
+            if case["kind"] != "Ens" and n >= 1 and len(case["queries"]) >= 2:
+                new_last = [int(v) + 1000 + 7 * j for j, v in enumerate(case["rows"][-1])]
+                new_prob = max(case["probs"]) + 500
+                try:
+                    ch.replace_last(np.array(new_last, dtype=float))
+                    ch.probs[-1] = float(new_prob)
+                    case2 = dict(case, rows=case["rows"][:-1] + [new_last], probs=case["probs"][:-1] + [new_prob],
+                                 history="history injected; every read-out queried once; replace_last(new point) and "
+                                         "probs[-1] = new value (as a tempering exchange does); then this query",
+                                 rows_before=case["rows"], probs_before=case["probs"],
+                                 queries=case["queries"][:: max(1, len(case["queries"]) // 12)])
+                    res2 = [run_query(ch, q, patch) for q in case2["queries"]]
+                    extra_cases.append(case2)
+                    extra_results.append(res2)
+                    rep.count("reread_after_replace_last", len(res2))
+                    n_queries += len(res2)
+                except Exception as e:
+                    rep.violation("C14/exception", f"{case['kind']}: replace_last / re-read failed: {e!r}",
+                                  {"case": {"sampler": case["kind"], "rows": case["rows"], "probs": case["probs"]}}, True)
+
+    cases = cases + extra_cases
+    all_results = all_results + extra_results
 
     # Python-side exact fact about the float cut-off that the model takes as an input
     for case in cases:
@@ -562,7 +590,18 @@ def replay(path):
             self.perm_log.append(list(perm))
             return np.array(perm if len(perm) == int(x) else list(range(int(x))))
     with OnePerm(None) as patch:
-        ch = build(c["sampler"], c["n_parameters"], c["rows"], c["probs"])
+        if c.get("rows_before_replace_last"):
+            ch = build(c["sampler"], c["n_parameters"], c["rows_before_replace_last"], c["probs_before_replace_last"])
+            for q0 in ({"q": "sample", "burn": 0, "thin": 1}, {"q": "probs", "burn": 0, "thin": 1},
+                       {"q": "interval", "burn": 0, "thin": 1, "interval": 0.5, "samples": None}):
+                try:
+                    run_query(ch, q0, patch)
+                except Exception:
+                    pass
+            ch.replace_last(np.array(c["rows"][-1], dtype=float))
+            ch.probs[-1] = float(c["probs"][-1])
+        else:
+            ch = build(c["sampler"], c["n_parameters"], c["rows"], c["probs"])
         status, obs, extra = run_query(ch, q, patch)
     print("implementation returns:", status, obs)
     bad = oracle(c["sampler"], c["n_parameters"], c["rows"], c["probs"], q, status, obs, extra)
